@@ -1,8 +1,345 @@
-(* C10 — nsqd HTTP API.  Property theorems only. *)
-From Coq Require Import String List ZArith.
-From NSQV Require Import gen.NsqdRoutes model.Http proofs.HttpProofs.
+(* C10 — nsqd HTTP API: validation, status codes and equivalence with TCP publish.
+   Property theorems only (proofs in proofs/HttpProofs.v; model in model/Http.v). *)
+From Coq Require Import String List NArith ZArith Bool.
+From NSQV Require Import model.Judge model.Names model.Num model.Http gen.NsqdRoutes proofs.HttpProofs.
 Import ListNotations.
+Close Scope string_scope.
+Open Scope Z_scope.
 
+(* ---------------------------------------------------------------- the tie to the source *)
+(* the model's route table IS newHTTPServer's (regenerated from nsqd/http.go on every run) *)
 Theorem C10_route_table : model_route_table = nsqd_routes.
 Proof. exact route_table_matches_source. Qed.
 Print Assumptions C10_route_table.
+
+Theorem C10_router_settings :
+  nsqd_router_settings =
+  [("HandleMethodNotAllowed", "true"); ("PanicHandler", "http_api.LogPanicHandler");
+   ("NotFound", "http_api.LogNotFoundHandler");
+   ("MethodNotAllowed", "http_api.LogMethodNotAllowedHandler")]%string.
+Proof. exact router_settings_expected. Qed.
+Print Assumptions C10_router_settings.
+
+(* every http_api.Err{code, token} literal of nsqd/http.go is the one the model answers;
+   the only 5xx literals are the healthy-backend exclusions named in C10_no_500 *)
+Theorem C10_err_literals : nsqd_http_errs = expected_err_literals.
+Proof. exact err_literals_expected. Qed.
+Print Assumptions C10_err_literals.
+Theorem C10_source_5xx_are_the_exclusions :
+  filter (fun e => 500 <=? snd (fst e)) nsqd_http_errs = excluded_5xx.
+Proof. exact source_5xx_literals_are_the_exclusions. Qed.
+Print Assumptions C10_source_5xx_are_the_exclusions.
+Theorem C10_bool_params :
+  nsqd_bool_params = [("true", true); ("1", true); ("false", false); ("0", false)]%string.
+Proof. exact bool_params_expected. Qed.
+Print Assumptions C10_bool_params.
+Theorem C10_arg_errs :
+  http_api_arg_errs = ["MISSING_ARG_TOPIC"; "INVALID_ARG_TOPIC"; "MISSING_ARG_CHANNEL"; "INVALID_ARG_CHANNEL"]%string.
+Proof. exact arg_errs_expected. Qed.
+Print Assumptions C10_arg_errs.
+
+(* ---------------------------------------------------------------- C10_no_500 *)
+(* For EVERY request - any method, any path, any query (parsable or not), any body,
+   declared or chunked, complete or ending in a read error - against EVERY daemon state,
+   given a healthy backend (stated: /ping's disk-failure 500, /info's os.Hostname error,
+   the 503 while exiting and a failing diskqueue Empty are excluded by [healthy_env]):
+   the status is one of 200 301 307 400 403 404 405 413, it is not 500, and status and
+   error token obey the documented table ([status_rule]: MISSING_ARG_* / INVALID_* /
+   MSG_EMPTY -> 400, *NOT_FOUND -> 404, *_TOO_BIG / BAD_BODY / BAD_MESSAGE -> 413,
+   METHOD_NOT_ALLOWED -> 405, TLS_REQUIRED -> 403).  Only requests dispatched to
+   net/http/pprof (stdlib passthrough) are outside the statement. *)
+Theorem C10_no_500 : forall c st r, healthy_env c ->
+  match fst (serve c st r) with
+  | Resp s tok => allowed_status s = true /\ s <> 500 /\ status_rule s tok = true
+  | Pass => exists rt, route_request (r_method r) (r_path r) = RHandle rt /\ rt_handler rt = HPprof
+  end.
+Proof. exact no_500. Qed.
+Print Assumptions C10_no_500.
+
+(* the table, condition by condition *)
+Theorem C10_missing_topic_400 : forall c st r p ps,
+  tls_gate c = false -> In p topic_taking_paths -> r_method r = MPost -> r_path r = str p ->
+  r_query r = QOk ps -> r_body_err r = false -> qget k_topic ps = None ->
+  serve c st r = (Resp 400 (str "MISSING_ARG_TOPIC"), []).
+Proof. exact missing_topic_400. Qed.
+Print Assumptions C10_missing_topic_400.
+
+Theorem C10_unknown_topic_404 : forall c st r p ps t ch,
+  tls_gate c = false -> In p existing_topic_paths -> r_method r = MPost -> r_path r = str p ->
+  r_query r = QOk ps -> r_body_err r = false ->
+  qget k_topic ps = Some t -> is_valid_name t = true ->
+  qget k_channel ps = Some ch -> is_valid_name ch = true ->
+  topic_exists st t = false ->
+  serve c st r = (Resp 404 (str "TOPIC_NOT_FOUND"), []).
+Proof. exact unknown_topic_404. Qed.
+Print Assumptions C10_unknown_topic_404.
+
+Theorem C10_unknown_channel_404 : forall c st r p ps t ch,
+  tls_gate c = false -> In p existing_channel_paths -> r_method r = MPost -> r_path r = str p ->
+  r_query r = QOk ps -> r_body_err r = false ->
+  qget k_topic ps = Some t -> is_valid_name t = true ->
+  qget k_channel ps = Some ch -> is_valid_name ch = true ->
+  topic_exists st t = true -> chan_exists st t ch = false ->
+  serve c st r = (Resp 404 (str "CHANNEL_NOT_FOUND"), []).
+Proof. exact unknown_channel_404. Qed.
+Print Assumptions C10_unknown_channel_404.
+
+Theorem C10_pub_oversize_413 : forall c st r body,
+  tls_gate c = false -> 0 <= max_msg c -> r_method r = MPost -> r_path r = str "/pub" ->
+  complete_body r body -> max_msg c < blen body ->
+  serve c st r = (Resp 413 (str "MSG_TOO_BIG"), []).
+Proof. exact pub_oversize_413. Qed.
+Print Assumptions C10_pub_oversize_413.
+
+Theorem C10_mpub_declared_oversize_413 : forall c st r n,
+  tls_gate c = false -> r_method r = MPost -> r_path r = str "/mpub" ->
+  r_framing r = Declared n -> max_body c < n ->
+  serve c st r = (Resp 413 (str "BODY_TOO_BIG"), []).
+Proof. exact mpub_declared_oversize_413. Qed.
+Print Assumptions C10_mpub_declared_oversize_413.
+
+Theorem C10_mpub_text_oversize_413 : forall c st r ps name body,
+  tls_gate c = false -> 0 <= max_msg c -> 0 <= max_body c ->
+  r_method r = MPost -> r_path r = str "/mpub" -> r_query r = QOk ps -> complete_body r body ->
+  qget k_topic ps = Some name -> is_valid_name name = true -> binary_mode ps = false ->
+  max_body c < blen body ->
+  exists tok effs, serve c st r = (Resp 413 tok, effs) /\ (forall t b d, ~ In (EEnqueue t b d) effs).
+Proof. exact mpub_text_oversize_413. Qed.
+Print Assumptions C10_mpub_text_oversize_413.
+
+Theorem C10_pub_empty_400 : forall c st r,
+  tls_gate c = false -> 0 <= max_msg c -> r_method r = MPost -> r_path r = str "/pub" ->
+  complete_body r [] -> serve c st r = (Resp 400 (str "MSG_EMPTY"), []).
+Proof. exact pub_empty_400. Qed.
+Print Assumptions C10_pub_empty_400.
+
+Theorem C10_pub_bad_defer_400 : forall c st r ps name ds body,
+  tls_gate c = false -> 0 <= max_msg c -> 0 <= max_req c < max_i64 ->
+  r_method r = MPost -> r_path r = str "/pub" -> r_query r = QOk ps -> complete_body r body ->
+  1 <= blen body <= max_msg c ->
+  qget k_topic ps = Some name -> is_valid_name name = true -> qget k_defer ps = Some ds ->
+  (match parse_int ds with
+   | None => True
+   | Some di => di < 0 \/ max_req c < di * ns_per_ms
+   end) ->
+  serve c st r = (Resp 400 (str "INVALID_DEFER"), [ECreateTopic name]).
+Proof. exact pub_bad_defer_400. Qed.
+Print Assumptions C10_pub_bad_defer_400.
+
+Theorem C10_wrong_method_405 : forall m p, In p static_paths -> find_route m p = None ->
+  match route_request m p with
+  | RMethodNotAllowed => m <> MOptions
+  | ROptionsOk => m = MOptions
+  | RRedirect _ => True
+  | _ => False
+  end.
+Proof. exact wrong_method_405. Qed.
+Print Assumptions C10_wrong_method_405.
+
+(* ---------------------------------------------------------------- C10_pub_equiv *)
+(* POST /pub?topic=T, body B (Content-Length or chunked) is accepted iff TCP "PUB T" with
+   B is, and then both have exactly the same effects (create T if absent; enqueue B) *)
+Theorem C10_pub_equiv : forall c st r ps name body effs,
+  tls_gate c = false -> 0 <= max_msg c ->
+  r_method r = MPost -> r_path r = str "/pub" -> r_query r = QOk ps -> complete_body r body ->
+  qget k_topic ps = Some name -> qget k_defer ps = None ->
+  (serve c st r = (Resp 200 OKb, effs) <-> tcp_pub c name (blen body) body = TcpOk effs).
+Proof. exact pub_equiv. Qed.
+Print Assumptions C10_pub_equiv.
+
+(* ... with &defer=D == "DPUB T D" for EVERY string of decimal digits D, of any length
+   (the F1 region: values past 2^63 and 2^64 are refused by both) and the same Duration *)
+Theorem C10_dpub_equiv : forall c st r ps name ds body effs,
+  tls_gate c = false -> 0 <= max_msg c -> 0 <= max_req c < max_i64 ->
+  r_method r = MPost -> r_path r = str "/pub" -> r_query r = QOk ps -> complete_body r body ->
+  qget k_topic ps = Some name -> qget k_defer ps = Some ds -> ds <> [] -> all_digits ds = true ->
+  (serve c st r = (Resp 200 OKb, effs) <-> tcp_dpub c name ds (blen body) body = TcpOk effs).
+Proof. exact dpub_equiv. Qed.
+Print Assumptions C10_dpub_equiv.
+
+(* binary /mpub with a Content-Length == "MPUB T" with that size field, on ANY payload
+   (arbitrary count and size fields, truncated, with trailing bytes) *)
+Theorem C10_mpub_binary_equiv_declared : forall c st r ps name payload effs,
+  tls_gate c = false -> 0 <= max_body c ->
+  r_method r = MPost -> r_path r = str "/mpub" -> r_query r = QOk ps ->
+  qget k_topic ps = Some name -> binary_mode ps = true ->
+  r_body r = payload -> r_framing r = Declared (blen payload) ->
+  (serve c st r = (Resp 200 OKb, effs) <-> tcp_mpub c name (blen payload) payload = TcpOk effs).
+Proof. exact mpub_binary_equiv_declared. Qed.
+Print Assumptions C10_mpub_binary_equiv_declared.
+
+(* chunked: the daemon reads at most max-body-size bytes, i.e. it is the MPUB of that prefix;
+   within the limit it is the MPUB of the payload itself *)
+Theorem C10_mpub_binary_equiv_chunked : forall c st r ps name payload effs,
+  tls_gate c = false -> 0 < max_body c ->
+  r_method r = MPost -> r_path r = str "/mpub" -> r_query r = QOk ps ->
+  qget k_topic ps = Some name -> binary_mode ps = true ->
+  r_body r = payload -> r_framing r = Chunked ->
+  (serve c st r = (Resp 200 OKb, effs) <->
+   tcp_mpub c name (Z.min (blen payload) (max_body c)) payload = TcpOk effs).
+Proof. exact mpub_binary_equiv_chunked. Qed.
+Print Assumptions C10_mpub_binary_equiv_chunked.
+
+Theorem C10_mpub_binary_equiv_chunked_within : forall c st r ps name payload effs,
+  tls_gate c = false -> 0 < max_body c -> blen payload <= max_body c ->
+  r_method r = MPost -> r_path r = str "/mpub" -> r_query r = QOk ps ->
+  qget k_topic ps = Some name -> binary_mode ps = true ->
+  r_body r = payload -> r_framing r = Chunked ->
+  (serve c st r = (Resp 200 OKb, effs) <-> tcp_mpub c name (blen payload) payload = TcpOk effs).
+Proof. exact mpub_binary_equiv_chunked_within. Qed.
+Print Assumptions C10_mpub_binary_equiv_chunked_within.
+
+(* whatever is enqueued by a binary /mpub, declared or chunked, fits BOTH limits (F11) *)
+Theorem C10_mpub_binary_limits : forall c st r ps name msgs d,
+  tls_gate c = false -> 0 <= max_body c ->
+  r_method r = MPost -> r_path r = str "/mpub" -> r_query r = QOk ps ->
+  qget k_topic ps = Some name -> binary_mode ps = true ->
+  In (EEnqueue name msgs d) (snd (serve c st r)) ->
+  4 + framed_size msgs <= max_body c /\ Forall (fun m => 1 <= blen m <= max_msg c) msgs.
+Proof. exact mpub_binary_body_limit. Qed.
+Print Assumptions C10_mpub_binary_limits.
+
+(* text /mpub: the exact rule.  Accepted iff the WHOLE body fits max-body-size and EVERY
+   non-empty line fits max-msg-size (one oversize line refuses the whole request, as one
+   oversize message refuses a whole MPUB); the batch is the non-empty lines, in order. *)
+Theorem C10_mpub_text_accept : forall c st r ps name body effs,
+  tls_gate c = false -> 0 <= max_msg c -> 0 <= max_body c ->
+  r_method r = MPost -> r_path r = str "/mpub" -> r_query r = QOk ps -> complete_body r body ->
+  qget k_topic ps = Some name -> binary_mode ps = false ->
+  (serve c st r = (Resp 200 OKb, effs) <->
+   (is_valid_name name = true /\ env_exiting c = false /\ blen body <= max_body c /\
+    forallb (msg_ok (max_msg c)) (text_msgs body) = true /\
+    effs = [ECreateTopic name; EEnqueue name (text_msgs body) 0])).
+Proof. exact mpub_text_accept. Qed.
+Print Assumptions C10_mpub_text_accept.
+
+(* ... == MPUB of the non-empty lines wherever both framings fit their own body limit *)
+Theorem C10_mpub_text_equiv : forall c st r ps name body effs,
+  tls_gate c = false -> 0 <= max_msg c < two31 -> 0 <= max_body c < two31 ->
+  r_method r = MPost -> r_path r = str "/mpub" -> r_query r = QOk ps -> complete_body r body ->
+  qget k_topic ps = Some name -> binary_mode ps = false ->
+  blen body <= max_body c -> tcp_framing_fits c (text_msgs body) ->
+  (serve c st r = (Resp 200 OKb, effs) <->
+   tcp_mpub c name (blen (mpub_frame (text_msgs body))) (mpub_frame (text_msgs body)) = TcpOk effs).
+Proof. exact mpub_text_equiv. Qed.
+Print Assumptions C10_mpub_text_equiv.
+
+(* the documented asymmetries outside that region (each measures ITS OWN body) *)
+Theorem C10_text_gap_empty_batch :
+  serve cfg_small [] (text_req [10%N; 10%N]) = (Resp 200 OKb, [ECreateTopic (str "t"); EEnqueue (str "t") [] 0]) /\
+  tcp_mpub cfg_small (str "t") 4 (mpub_frame []) = TcpErr E_BAD_BODY [ECreateTopic (str "t")].
+Proof. exact text_mpub_gap_empty_batch. Qed.
+Print Assumptions C10_text_gap_empty_batch.
+Theorem C10_text_gap_count :
+  fst (serve cfg_small [] (text_req (lines_of 100))) = Resp 200 OKb /\
+  tcp_mpub cfg_small (str "t") (blen (mpub_frame (text_msgs (lines_of 100)))) (mpub_frame (text_msgs (lines_of 100)))
+    = TcpErr E_BAD_BODY [ECreateTopic (str "t")].
+Proof. exact text_mpub_gap_count. Qed.
+Print Assumptions C10_text_gap_count.
+Theorem C10_text_gap_blank_lines :
+  let body := (repeat 10%N 320 ++ [97%N])%list in
+  fst (serve cfg_small [] (text_req body)) = Resp 413 (str "BODY_TOO_BIG") /\
+  tcp_mpub cfg_small (str "t") (blen (mpub_frame (text_msgs body))) (mpub_frame (text_msgs body))
+    = TcpOk [ECreateTopic (str "t"); EEnqueue (str "t") [[97%N]] 0].
+Proof. exact text_mpub_gap_blank_lines. Qed.
+Print Assumptions C10_text_gap_blank_lines.
+
+(* ---------------------------------------------------------------- C10_admin_effect *)
+(* each of the ten create / delete / empty / pause / unpause endpoints: a 200 means exactly
+   the stated effect on exactly the named object (which had to exist where the endpoint
+   requires it); any other answer means no effect at all *)
+Theorem C10_admin_effect : forall c st r p op s tok effs,
+  tls_gate c = false -> healthy_env c -> In (p, op) admin_paths ->
+  r_method r = MPost -> r_path r = str p ->
+  serve c st r = (Resp s tok, effs) ->
+  (s = 200 -> exists ps t, r_query r = QOk ps /\ qget k_topic ps = Some t /\
+              effs = op_effects op t (chan_arg ps) /\ op_accepts op st t (chan_arg ps)) /\
+  (s <> 200 -> effs = []).
+Proof. exact admin_effect_exact. Qed.
+Print Assumptions C10_admin_effect.
+
+(* ... and nothing else: every other topic is untouched (its own pump aside); a refused
+   request leaves the whole state as it was *)
+Theorem C10_admin_nothing_else : forall c st r p op s tok st',
+  tls_gate c = false -> healthy_env c -> In (p, op) admin_paths ->
+  r_method r = MPost -> r_path r = str p ->
+  run c st r = (Resp s tok, st') ->
+  (s <> 200 -> st' = settle st) /\
+  (forall t', (forall ps t, r_query r = QOk ps -> qget k_topic ps = Some t -> t' <> t) ->
+              lookup t' st' = option_map settle_topic (lookup t' st)).
+Proof. exact admin_touches_only_named. Qed.
+Print Assumptions C10_admin_nothing_else.
+
+(* an effect never changes a topic it does not name; a channel operation leaves the topic's
+   own flags and its other channels alone *)
+Theorem C10_effect_frame : forall st e t', effect_topic e <> Some t' ->
+  lookup t' (apply_effect st e) = lookup t' st.
+Proof. exact apply_effect_other_topic. Qed.
+Print Assumptions C10_effect_frame.
+Theorem C10_channel_frame : forall st t ch (f : chan_st -> chan_st) ts,
+  lookup t st = Some ts ->
+  exists ts', lookup t (update t (set_chans (update ch f)) st) = Some ts' /\
+    ts_paused ts' = ts_paused ts /\ ts_depth ts' = ts_depth ts /\
+    lookup ch (ts_chans ts') = option_map f (lookup ch (ts_chans ts)) /\
+    forall ch', ch' <> ch -> lookup ch' (ts_chans ts') = lookup ch' (ts_chans ts).
+Proof. exact chan_op_frame. Qed.
+Print Assumptions C10_channel_frame.
+
+(* ---------------------------------------------------------------- non-vacuity *)
+Definition ex_cfg : cfg := mkCfg 64 320 3600000000000 false true false true true [str "log_level"].
+Definition ex_req (m : method) (p : string) (q : list (bytes * bytes)) (b : bytes) : request :=
+  mkReq m (str p) (QOk q) (Declared (blen b)) b false false.
+
+Example C10_ex_healthy : healthy_env ex_cfg.
+Proof. repeat split. Qed.
+
+(* F1 witness: /pub?topic=t&defer=18446744073710 (ms -> ns wraps past 2^63) is 400 INVALID_DEFER *)
+Example C10_ex_F1 :
+  fst (serve ex_cfg [] (ex_req MPost "/pub" [(str "topic", str "t"); (str "defer", str "18446744073710")] (str "x")))
+  = Resp 400 (str "INVALID_DEFER").
+Proof. vm_compute. reflexivity. Qed.
+Example C10_ex_F1_neg :
+  fst (serve ex_cfg [] (ex_req MPost "/pub" [(str "topic", str "t"); (str "defer", str "-1")] (str "x")))
+  = Resp 400 (str "INVALID_DEFER").
+Proof. vm_compute. reflexivity. Qed.
+
+(* an accepted deferred publish and its DPUB twin: same effects *)
+Example C10_ex_dpub :
+  serve ex_cfg [] (ex_req MPost "/pub" [(str "topic", str "t"); (str "defer", str "3600000")] (str "hello"))
+  = (Resp 200 OKb, [ECreateTopic (str "t"); EEnqueue (str "t") [str "hello"] 3600000000000]) /\
+  tcp_dpub ex_cfg (str "t") (str "3600000") 5 (str "hello")
+  = TcpOk [ECreateTopic (str "t"); EEnqueue (str "t") [str "hello"] 3600000000000].
+Proof. vm_compute. split; reflexivity. Qed.
+
+(* binary batch, two messages; a negative count is refused by both *)
+Example C10_ex_mpub_binary :
+  let p := (enc32 2 ++ enc32 1 ++ [97%N] ++ enc32 2 ++ [98%N; 99%N])%list in
+  serve ex_cfg [] (ex_req MPost "/mpub" [(str "topic", str "t"); (str "binary", str "true")] p)
+  = (Resp 200 OKb, [ECreateTopic (str "t"); EEnqueue (str "t") [[97%N]; [98%N; 99%N]] 0]) /\
+  tcp_mpub ex_cfg (str "t") (blen p) p = TcpOk [ECreateTopic (str "t"); EEnqueue (str "t") [[97%N]; [98%N; 99%N]] 0].
+Proof. vm_compute. split; reflexivity. Qed.
+Example C10_ex_mpub_negative_count :
+  let p := [255%N; 255%N; 255%N; 255%N; 0%N; 0%N; 0%N; 1%N; 97%N] in
+  fst (serve ex_cfg [] (ex_req MPost "/mpub" [(str "topic", str "t"); (str "binary", str "1")] p)) = Resp 413 (str "BAD_BODY") /\
+  tcp_mpub ex_cfg (str "t") (blen p) p = TcpErr E_BAD_BODY [ECreateTopic (str "t")].
+Proof. vm_compute. split; reflexivity. Qed.
+
+(* admin: deleting one channel of one topic touches nothing else; an unknown topic is 404 and nothing *)
+Definition ex_state : state :=
+  [(str "a", mkTopic false 0 [(str "c1", mkChan false 2); (str "c2", mkChan true 1)]);
+   (str "b", mkTopic true 3 [])].
+Example C10_ex_delete_channel :
+  run ex_cfg ex_state (ex_req MPost "/channel/delete" [(str "topic", str "a"); (str "channel", str "c1")] [])
+  = (Resp 200 [], [(str "a", mkTopic false 0 [(str "c2", mkChan true 1)]); (str "b", mkTopic true 3 [])]).
+Proof. vm_compute. reflexivity. Qed.
+Example C10_ex_unknown_topic :
+  run ex_cfg ex_state (ex_req MPost "/topic/pause" [(str "topic", str "zzz")] [])
+  = (Resp 404 (str "TOPIC_NOT_FOUND"), ex_state).
+Proof. vm_compute. reflexivity. Qed.
+(* router: wrong method, OPTIONS, trailing slash, case *)
+Example C10_ex_router :
+  map (fun mp => fst (serve ex_cfg [] (ex_req (fst mp) (snd mp) [] [])))
+      [(MGet, "/pub"); (MOptions, "/pub"); (MPost, "/pub/"); (MGet, "/PING"); (MGet, "/nope"); (MDelete, "/ping")]%string
+  = [Resp 405 (str "METHOD_NOT_ALLOWED"); Resp 200 []; Resp 307 []; Resp 301 []; Resp 404 (str "NOT_FOUND");
+     Resp 405 (str "METHOD_NOT_ALLOWED")].
+Proof. vm_compute. reflexivity. Qed.
